@@ -350,6 +350,8 @@ def conv(a):
         return list(a["pylist"])
     if isinstance(a, dict):
         arr = np.array(a["array"], dtype=a["dtype"])
+        if "shape" in a:
+            arr = arr.reshape(tuple(a["shape"]))
         if a.get("readonly"):
             arr.setflags(write=False)
         return arr
